@@ -4716,12 +4716,9 @@ where
                 )
               })
           }
-          _ => Some(format!(
-            "expected value {} {}, got {:?}",
-            self.state.ctrl.unwrap(),
-            t,
-            b
-          )),
+          // no control operator in effect: a text literal against a byte string
+          None => Some(format!("expected value {}, got {:?}", t, b)),
+          Some(ctrl) => Some(format!("expected value {} {}, got {:?}", ctrl, t, b)),
         },
         #[cfg(feature = "additional-controls")]
         token::Value::BYTE(bv) => match &self.state.ctrl {
